@@ -621,10 +621,11 @@ def solve_query(q_tuple):
         try:
             if lin:
                 # two arithmetic back ends of z3, products opaque; only `unsat` is used
-                r, dt, model = solve_z3(text, min(timeout_ms, 20000), seed, linear=True, legacy=True)
+                lin_cap = timeout_ms * 4 // 9  # 20 s of the 45 s quick budget, 53 s of the 120 s thorough budget, 60 s in the second pass
+                r, dt, model = solve_z3(text, lin_cap, seed, linear=True, legacy=True)
                 if r != "unsat":
                     total += dt
-                    r, dt, model = solve_z3(text, min(timeout_ms, 20000), seed, linear=True)
+                    r, dt, model = solve_z3(text, lin_cap, seed, linear=True)
             else:
                 r, dt, model = solve_z3(text, timeout_ms, seed)
                 if r == "unknown":
